@@ -53,6 +53,92 @@ def _subst_locals(fi: FunctionInfo, e: ast.AST, depth=0) -> ast.AST:
     return e
 
 
+_CLASSES: Dict[str, str] = {}  # the operand names of the branch under analysis -> their classes (set by r52)
+
+
+def _expand_helpers(fi: FunctionInfo, e: ast.AST, classes: Dict[str, str], depth: int = 0) -> ast.AST:
+    """helper methods read as their bodies, with the receiver's class deciding which method is meant:
+         R.m(args)            m a single-`return e` method          ->  e[self := R, params := args]
+         R.m(args)            m a generator of `yield e_i` only     ->  (e_1, ..., e_k)   (a finite sequence of conditions / points)
+         all((t_1, ..., t_k))                                         ->  t_1 and ... and t_k   (all() stops at the first false item)
+         all(elt for v in (t_1, ..., t_k))                            ->  elt[v := t_1] and ...
+    """
+    import copy as _copy
+    if depth > 5:
+        return e
+    repo = _REPO[0]
+
+    class Sub(ast.NodeTransformer):
+        def __init__(self, amap):
+            self.amap = amap
+
+        def visit_Name(self, n):
+            if isinstance(n.ctx, ast.Load) and n.id in self.amap:
+                return _copy.deepcopy(self.amap[n.id])
+            return n
+
+    def call(c: ast.Call, classes):
+        if not (isinstance(c.func, ast.Attribute) and isinstance(c.func.value, ast.Name) and c.func.value.id in classes
+                and not c.keywords and not any(isinstance(a, ast.Starred) for a in c.args)):
+            return None
+        cn = classes[c.func.value.id]
+        if not repo.has_cls(cn):
+            return None
+        m = repo.cls(cn).lookup(c.func.attr)
+        if m is None or m.self_name is None or len(m.params) != len(c.args) + 1:
+            return None
+        body = [s_ for s_ in m.node.body if not (isinstance(s_, ast.Expr) and isinstance(s_.value, ast.Constant))]
+        amap = dict(zip(m.params[1:], c.args))
+        amap[m.params[0]] = ast.Name(id=c.func.value.id, ctx=ast.Load())
+        inner = {}
+        for p_, a_ in amap.items():
+            if isinstance(a_, ast.Name) and a_.id in classes:
+                inner[p_] = classes[a_.id]
+        if len(body) == 1 and isinstance(body[0], ast.Return) and body[0].value is not None:
+            # expand inside the callee first (its own names), then substitute
+            v = _expand_helpers(m, body[0].value, inner, depth + 1)
+            return Sub(amap).visit(_copy.deepcopy(v))
+        if len(body) == 1 and isinstance(body[0], ast.For) and not body[0].orelse and isinstance(body[0].target, ast.Name) \
+                and len(body[0].body) == 1 and isinstance(body[0].body[0], ast.Expr) and isinstance(body[0].body[0].value, ast.Yield) \
+                and body[0].body[0].value.value is not None:
+            # for x in ITER: yield E(x)   ==   (E(x) for x in ITER);   for x in ITER: yield x   ==   ITER
+            lp = body[0]
+            ye = lp.body[0].value.value
+            if isinstance(ye, ast.Name) and ye.id == lp.target.id:
+                return Sub(amap).visit(_copy.deepcopy(lp.iter))
+            ge = ast.GeneratorExp(elt=_copy.deepcopy(ye), generators=[ast.comprehension(target=_copy.deepcopy(lp.target), iter=_copy.deepcopy(lp.iter), ifs=[], is_async=0)])
+            return Sub({k_: v_ for k_, v_ in amap.items() if k_ != lp.target.id}).visit(ge)
+        if body and all(isinstance(s_, ast.Expr) and isinstance(s_.value, ast.Yield) and s_.value.value is not None for s_ in body):
+            items = [_expand_helpers(m, s_.value.value, inner, depth + 1) for s_ in body]
+            return ast.Tuple(elts=[Sub(amap).visit(_copy.deepcopy(v)) for v in items], ctx=ast.Load())
+        return None
+
+    class Ex(ast.NodeTransformer):
+        def visit_Call(self, c):
+            self.generic_visit(c)
+            r = call(c, classes)
+            if r is not None:
+                return r
+            if isinstance(c.func, ast.Name) and c.func.id == "all" and len(c.args) == 1 and not c.keywords:
+                a = c.args[0]
+                if isinstance(a, (ast.Tuple, ast.List)) and a.elts:
+                    return ast.BoolOp(op=ast.And(), values=list(a.elts)) if len(a.elts) > 1 else a.elts[0]
+                if isinstance(a, (ast.GeneratorExp, ast.ListComp)) and len(a.generators) == 1 and not a.generators[0].ifs \
+                        and isinstance(a.generators[0].target, ast.Name) and isinstance(a.generators[0].iter, (ast.Tuple, ast.List)) \
+                        and a.generators[0].iter.elts:
+                    var = a.generators[0].target.id
+                    vals = [Sub({var: it}).visit(_copy.deepcopy(a.elt)) for it in a.generators[0].iter.elts]
+                    return ast.BoolOp(op=ast.And(), values=vals) if len(vals) > 1 else vals[0]
+            return c
+
+    out = Ex().visit(_copy.deepcopy(e))
+    ast.fix_missing_locations(out)
+    return out
+
+
+_REPO: List = [None]
+
+
 def conjuncts(fi: FunctionInfo, e: ast.AST) -> Optional[List[ast.AST]]:
     """flatten a conjunction; None if the top-level connective is not `and`"""
     e = _subst_locals(fi, e)
@@ -60,6 +146,8 @@ def conjuncts(fi: FunctionInfo, e: ast.AST) -> Optional[List[ast.AST]]:
         # helper methods of the class read as their bodies:  self._end_points_in(other)  /  other._end_points_in(self)
         from ..astutil import inline_self_calls
         e = inline_self_calls(fi.cls.lookup, tuple(fi.params[:2]), e)
+        if _CLASSES and _REPO[0] is not None:
+            e = _expand_helpers(fi, e, _CLASSES)
     if isinstance(e, ast.BoolOp):
         if not isinstance(e.op, ast.And):
             return None
@@ -188,6 +276,9 @@ def r52(ctx, res, resolved):
             in_form = fi.name == "in_"
             x_name = fi.params[0] if in_form else fi.params[1]
             s_name = fi.params[1] if in_form else fi.params[0]
+            _REPO[0] = ctx.repo
+            _CLASSES.clear()
+            _CLASSES.update({x_name: x, s_name: s})
             where = fi.where(t)
             construct = "%s in %s: %s" % (x, s, fi.short)
             # constant returns belong to a universal loop
@@ -206,6 +297,7 @@ def r52(ctx, res, resolved):
                 # all(v in S for v in X.points): the comprehension form of the universal vertex loop
                 from ..astutil import expand_locals
                 tv = expand_locals(fi.node, t.value, fi.params)
+                tv = _expand_helpers(fi, tv, _CLASSES)
                 if isinstance(tv, ast.Call) and isinstance(tv.func, ast.Name) and tv.func.id == "all" and len(tv.args) == 1 \
                         and isinstance(tv.args[0], (ast.GeneratorExp, ast.ListComp)):
                     ge = tv.args[0]
@@ -498,7 +590,12 @@ def r55_inclusive_thresholds(ctx, res, cnames=("Line", "Plane", "Segment", "Half
                       if any(isinstance(x, ast.Call) and isinstance(x.func, ast.Name) and x.func.id in ("len", "range") for sd in sides for x in ast.walk(sd)):
                           continue
                       tys = [set(map(str, eng.types_at(m_, sd))) for sd in sides]
-                      if not all(t <= {"num", "bool"} and t for t in tys):
+                      raw = [eng.types_at(m_, sd) for sd in sides]
+                      numeric = [bool(t) and t <= {"num", "bool"} for t in tys]
+                      vague = [(not r_) or all(isinstance(x_, tuple) and x_ and x_[0] == "Unknown" for x_ in r_) for r_ in raw]
+                      # (an ordering comparison with a number compares numbers: a side of unknown type -- a value out of map(),
+                      # min() over zip(*...) -- is a number too)
+                      if not (all(a_ or b_ for a_, b_ in zip(numeric, vague)) and any(numeric)):
                           continue
                       if isinstance(st, (ast.If, ast.While)):
                           # a branching test decides membership only if one of its outcomes rejects directly
@@ -552,4 +649,7 @@ def run(ctx, res):
     roots = [m for c in ctx.repo.classes() if c.name in GEOM7 for m in c.methods.values() if m.name in ("__contains__", "in_")]
     k6 = report_affine(ctx, res, "R5.6", affine_scope(ctx, roots, GEOM7), "the answer of `in`")
     ctx.require(res, "R5.6", k6, 30, "function contexts examined for position / direction mismatches")
+    # R5.7 a Plane given in general form stores a point that does not depend on the scale of the equation (coverage.py)
+    from ..coverage import check_general_form_point
+    check_general_form_point(ctx, res, "R5.7")
     res.undecided_ob("numerical truth of Point-in-S predicates (which side of an oblique edge), inclusive boundaries, tolerance band")
